@@ -99,7 +99,18 @@ func ModelSprintf(format string, a ...interface{}) string {
 		}
 		width := 0
 		if format[i] == '*' {
-			width = a[ai].(int)
+			switch w := a[ai].(type) {
+			case int:
+				width = w
+			case uint32:
+				width = int(w)
+			case int64:
+				width = int(w)
+			case uint:
+				width = int(w)
+			case int32:
+				width = int(w)
+			}
 			ai++
 			i++
 		} else {
